@@ -33,7 +33,16 @@ VARIANTS = [
     ("C02", "real_contract wrong cell", U, r"x = block\[1, 0\]", "x = block[0, 1]", "F"),
     ("C02", "adjoint sign", U, r"M\[n : 2 \* n, 0:n\] = -np\.conjugate\(D\)", "M[n : 2 * n, 0:n] = np.conjugate(D)", "F"),
     ("C02", "real_contract reads the first row instead (equivalent)", U, r"x = block\[1, 0\]", "x = -block[0, 1]", "S"),
+    ("C02", "Realp buffer takes the dtype of the first plane", U, r"AR = np\.zeros\(\(4 \* m, 4 \* n\)\)", "AR = np.zeros((4 * m, 4 * n), dtype=A1.dtype)", "F"),
+    ("C02", "Realp buffer with the promoted dtype (equivalent)", U, r"AR = np\.zeros\(\(4 \* m, 4 \* n\)\)",
+     "AR = np.zeros((4 * m, 4 * n), dtype=np.result_type(A1, A2, A3, A4))", "S"),
     # ---- C03
+    ("C03", "constructor replaces gamma outside (0,1) by the default", S,
+     r"self\.gamma = gamma\n        self\.max_iter = max_iter\n        self\.tol = tol\n        self\.verbose = verbose\n        self\.compute_residuals = compute_residuals\n\n",
+     "self.gamma = gamma if 0.0 < gamma < 1.0 else 0.5\n        self.max_iter = max_iter\n        self.tol = tol\n        self.verbose = verbose\n        self.compute_residuals = compute_residuals\n\n", "F"),
+    ("C03", "constructor converts with float()/int() (equivalent)", S,
+     r"self\.gamma = gamma\n        self\.max_iter = max_iter\n        self\.tol = tol\n        self\.verbose = verbose\n        self\.compute_residuals = compute_residuals\n\n",
+     "self.gamma = float(gamma)\n        self.max_iter = int(max_iter)\n        self.tol = tol\n        self.verbose = verbose\n        self.compute_residuals = compute_residuals\n\n", "S"),
     ("C03", "initial scaling", S, r"alpha = 1\.0 / \(norm_A\*\*2\) if", "alpha = 1.0 / norm_A if", "F"),
     ("C03", "update sign", S, r"X = X - self\.gamma \* update", "X = X + self.gamma * update", "F"),
     ("C03", "third-order polynomial", S, r"\+ quat_matmat\(T, AT_sq\)", "+ quat_matmat(T, AT)", "F"),
@@ -63,6 +72,11 @@ VARIANTS = [
     ("C08", "accumulation order", TRI, r"P = quat_matmat\(Q, P\)", "P = quat_matmat(P, Q)", "F"),
     ("C08", "back-transformation", EIG, r"eigenvectors = quat_matmat\(P_H, eigenvectors_B\)", "eigenvectors = quat_matmat(P, eigenvectors_B)", "F"),
     ("C08", "householder formula side", TRI, r"h = \(1\.0 / zeta\) \* \(h - uuH\)", "h = (h - uuH) * (1.0 / zeta)", "F"),
+    ("C08", "zeta branch decided by one component of romega", TRI, r"if r != 0:", "if romega.w != 0:", "F"),
+    ("C08", "zeta branch spelled r > 0 (equivalent)", TRI, r"if r != 0:", "if r > 0:", "S"),
+    ("C09", "zeta branch decided by the real part of romega", TRI, r"if r != 0:", "if romega.real != 0:", "F"),
+    ("C09", "vector zero test spelled alpha <= 0 (equivalent)", TRI, r"if alpha == 0:", "if alpha <= 0:", "S"),
+    ("C10", "zeta branch decided by one component of romega", TRI, r"if r != 0:", "if romega.w != 0:", "F"),
     ("C09", "accumulation order", HES, r"P = quat_matmat\(Hk, P\)", "P = quat_matmat(P, Hk)", "F"),
     ("C09", "one-sided update", HES, r"H = quat_matmat\(quat_matmat\(Hk, H\), Hk_H\)", "H = quat_matmat(Hk, H)", "F"),
     ("C09", "clean-up predicate", HES, r"if i > j \+ 1:\n                hij = H_clean", "if i > j:\n                hij = H_clean", "F"),
